@@ -307,9 +307,19 @@ class World:
         self.repos[ROBOT].set_build_status(revision=sha, key=key, state=state)
 
     # ------------------------------------------------------------------ Bert-E evaluations
+    def _tick(self):
+        """Every job runs at its own instant of the world's clock. Bert-E's merge commits take their dates from the
+        environment git sees; without this, two evaluations that re-create the same merge (same parents, same tree,
+        same message: a rebuild right after a reset) within one wall-clock second produce the SAME commit object,
+        which a history comparison by commit identity reads as "the old commit" (a flaky false disagreement on a
+        fast machine)."""
+        self.clock += 10
+        os.environ['GIT_AUTHOR_DATE'] = os.environ['GIT_COMMITTER_DATE'] = '%d +0000' % self.clock
+
     def _run(self, job):
         b = self.berte
         b.put_job(job)
+        self._tick()
         b.process_task()
         return job.status or 'ok'
 
@@ -344,6 +354,7 @@ class World:
         out = []
         while self.berte.task_queue.qsize() and limit:
             limit -= 1
+            self._tick()
             job = self.berte.process_task()
             pr = getattr(job, 'pull_request', None)
             out.append((pr.id if pr is not None else None, job.status or 'ok'))
